@@ -77,6 +77,30 @@ def write_fasta(path, seqs, width=60):
     return path
 
 
+def make_unshiftable(seq, specs):
+    """Adjust the reference so that every deletion spec (pos, "DEL", L) is not shiftable:
+    the last deleted base differs from the anchor and the base after the deletion differs
+    from the first deleted base.  (Insertions are made unshiftable by make_variant.)
+    Also keeps the base after an insertion anchor different from the anchor for tidy windows."""
+    s = list(seq)
+    for pos, kind, L in specs:
+        if kind != "DEL":
+            continue
+        last, after = pos + L, pos + 1 + L
+        if s[last] == s[pos]:
+            for b in "ACGT":
+                if b != s[pos] and b != s[last - 1] and (after >= len(s) or b != s[after]):
+                    s[last] = b
+                    break
+        if s[after] == s[pos + 1]:
+            for b in "ACGT":
+                if b != s[pos + 1] and b != s[last] and (after + 1 >= len(s) or b != s[after + 1]):
+                    s[after] = b
+                    break
+        assert s[last] != s[pos] and s[after] != s[pos + 1]
+    return "".join(s)
+
+
 def other_base(b, k=1):
     order = "ACGT"
     return order[(order.index(b) + k) % 4]
